@@ -45,7 +45,8 @@ REQUIRED_PROBES = ['corrupt_sa', 'corrupt_R', 'corrupt_T', 'corrupt_X', 'corrupt
                    'edge_scalar_bit255', 'msg_len_0', 'msg_len_512', 'adapter_as_sig',
                    'wrong_scalar_decrypt', 'crash_between_decrypt_and_publish',
                    'splice', 'misroute', 'honest_spend_accepted', 'extract',
-                   'check_after_unrelated_derive', 'two_adapters_in_one_execution'] + \
+                   'check_after_unrelated_derive', 'two_adapters_in_one_execution',
+                   'neutral_tweak_point_offered'] + \
     ['variant_' + v for v in VARIANTS]
 
 
@@ -144,6 +145,10 @@ def gen_steps(rng, eid, ex, co, others, fault_free):
         st.append({'ex': eid, 'act': 'decrypt'})
     st.append({'ex': eid, 'act': 'publish', 'who': 'B', 'what': rng.choice(['sig', 'sig', 'one_shot'])})
     st.append({'ex': eid, 'act': 'extract'})
+    if not fault_free and rng.chance(1, 6):
+        # a malicious counterparty proposes the NEUTRAL element as tweak point (t = 0):
+        # an adapter for it would be a plain signature -- nothing encrypted
+        st.append({'ex': eid, 'act': 'neutral_offer'})
     return st
 
 
@@ -621,6 +626,28 @@ def execute(plan, run):
                 run.check('V4_decrypted_sig_verifies', ok,
                           'C17/two_adapters_in_one_execution/signature_does_not_verify', step=i)
             run.ev('settle_pair', i, e.eid, o.eid, got == want)
+        elif act == 'neutral_offer':
+            run.probe('neutral_tweak_point_offered')
+            ident = b'\x01' + b'\x00' * 31
+            made = None
+            try:
+                made = build_adapter(e, ident) if e.v != 'raw_private' else None
+            except LIB_ERRORS:
+                made = None
+            except Exception:
+                made = None
+            if made is None:
+                run.evals += 1          # refused: nothing to decrypt, nothing to publish
+                run.cell(*tag, 'neutral', 'refused')
+                continue
+            R0, sa0 = made
+            passed = run_check(e, R0, sa0, e.X, ident, e.m, dict(e.sf) if e.sf is not None else None)
+            asig = spend(e, R0 + sa0, run)
+            run.check('V6_adapter_is_not_a_signature', not (passed and asig) and
+                      not ed_verify(e.X, e.m, R0 + sa0),
+                      'C17/%s/adapter_for_neutral_tweak_point_is_a_plain_signature' % e.v, step=i,
+                      detail={'ex': e.spec, 'check_passed': passed, 'accepted_as_signature': asig})
+            run.cell(*tag, 'neutral', passed, asig)
         elif act == 'extract':
             if e.published is None or e.sent is None:
                 continue
